@@ -95,7 +95,7 @@ theorem dflt_fin (s : Nat) (st2 : LState σ) (st' : LState σ)
     exact absurd h (failPlain_ne_fin _ _)
 
 theorem scanPlain_err_pos_gen (cfg : Config σ τ ε) (ns : Nat → Option Nat)
-    (htargets : targetsOK cfg.dfa = true) (hns : DispatchOK cfg.dfa ns) (loc : Loc) (st' : LState σ) :
+    (htargets : targetsOK cfg.dfa = true) (hns : DispatchOK cfg.dfa cfg.inl ns) (loc : Loc) (st' : LState σ) :
     ∀ (iter : List Nat) (s : Nat) (st : LState σ), st.done = false →
       scanPlain cfg ns s iter st = .err loc st' →
       st'.iter = iter.drop (gotoLen cfg.dfa s iter + 1) ∧
@@ -158,7 +158,7 @@ theorem scanPlain_err_pos_gen (cfg : Config σ τ ε) (ns : Nat → Option Nat)
 
 /-- `return None` happens with the end of input handled. -/
 theorem scanPlain_fin_done (cfg : Config σ τ ε) (ns : Nat → Option Nat)
-    (htargets : targetsOK cfg.dfa = true) (hns : DispatchOK cfg.dfa ns) (st' : LState σ) :
+    (htargets : targetsOK cfg.dfa = true) (hns : DispatchOK cfg.dfa cfg.inl ns) (st' : LState σ) :
     ∀ (iter : List Nat) (s : Nat) (st : LState σ),
       scanPlain cfg ns s iter st = .fin st' → st'.done = true := by
   intro iter
@@ -284,24 +284,24 @@ theorem nextLoop_input (cfg : Config σ τ ε) (inp' : Option (List Nat)) (hI : 
     by_cases hd : st.done = true
     · rw [if_pos hd, if_pos hd]
     · rw [if_neg hd, if_neg hd]
-      show (match dispatch (stateArms cfg.dfa) st.state with
+      show (match dispatch (stateArms cfg.dfa cfg.inl) st.state with
         | none => none
         | some s =>
-          match execState cfg (dispatch (stateArms cfg.dfa)) s st.iter st with
+          match execState cfg (dispatch (stateArms cfg.dfa cfg.inl)) s st.iter st with
           | .ret item st' => some (item, st')
           | .cont st' => nextLoop cfg f st') =
-        (match dispatch (stateArms cfg.dfa) st.state with
+        (match dispatch (stateArms cfg.dfa cfg.inl) st.state with
         | none => none
         | some s =>
-          match execState { cfg with input := inp' } (dispatch (stateArms cfg.dfa)) s st.iter st with
+          match execState { cfg with input := inp' } (dispatch (stateArms cfg.dfa cfg.inl)) s st.iter st with
           | .ret item st' => some (item, st')
           | .cont st' => nextLoop { cfg with input := inp' } f st')
-      cases dispatch (stateArms cfg.dfa) st.state with
+      cases dispatch (stateArms cfg.dfa cfg.inl) st.state with
       | none => rfl
       | some s =>
         simp only []
         rw [← execState_input cfg inp' hI]
-        cases execState cfg (dispatch (stateArms cfg.dfa)) s st.iter st with
+        cases execState cfg (dispatch (stateArms cfg.dfa cfg.inl)) s st.iter st with
         | ret item st' => rfl
         | cont st' => exact ih st'
 
@@ -347,7 +347,7 @@ theorem callAction_ne_end (cfg : Config σ τ ε) (a : Nat) (st st' : LState σ)
 
 theorem round_prog (cfg : Config σ τ ε) (hm : MachineOK cfg) (st : LState σ) (hr : Ready cfg st)
     (e : Nat) (he : IsEntry cfg e) (item : Option (Item τ ε)) (st' : LState σ)
-    (h : execState cfg (dispatch (stateArms cfg.dfa)) e st.iter st = .ret item st') :
+    (h : execState cfg (dispatch (stateArms cfg.dfa cfg.inl)) e st.iter st = .ret item st') :
     Prog st item st' := by
   obtain ⟨hl, hsi, e0, he0, hst0⟩ := hr
   have hok := NextProtocol.scan_entry_ok cfg hm st hl e he
@@ -355,12 +355,12 @@ theorem round_prog (cfg : Config σ τ ε) (hm : MachineOK cfg) (st : LState σ)
   have heq := scan_eq_scanPlain cfg _ hm.flags hm.acceptAny hm.targets hns e st.iter st
     (by intro h; rw [hl] at h; cases h)
   unfold execState at h
-  cases ho : scan cfg (dispatch (stateArms cfg.dfa)) e st.iter st with
+  cases ho : scan cfg (dispatch (stateArms cfg.dfa cfg.inl)) e st.iter st with
   | act a st1 =>
     rw [ho] at hok h
     have hact : NextProtocol.ActOK st.iter st.initial st1 := hok
     obtain ⟨k, hk, hkle, hkp⟩ := hact.iter
-    have hent : ∃ e, IsEntry cfg e ∧ st1.initial = renumber (inlinedStates cfg.dfa) e :=
+    have hent : ∃ e, IsEntry cfg e ∧ st1.initial = renumber cfg.inl e :=
       ⟨e0, he0, by rw [hact.initial, ← hsi, hst0]⟩
     have h' : callAction cfg a st1 = .ret item st' := h
     rcases NextProtocol.callAction_ok cfg a st1 hact.last hent with
@@ -419,12 +419,12 @@ theorem nextLoop_prog (cfg : Config σ τ ε) (hm : MachineOK cfg) :
       exact ⟨fun x hx => (by cases hx), fun _ => hd⟩
     · rw [if_neg hd] at h
       obtain ⟨e0, he0, hst0⟩ := hr.2.2
-      have hdisp : dispatch (stateArms cfg.dfa) st.state = some e0 := by
+      have hdisp : dispatch (stateArms cfg.dfa cfg.inl) st.state = some e0 := by
         rw [hst0]
         exact NextProtocol.dispatch_entry cfg hm e0 he0
       simp only [hdisp] at h
       have hround := NextProtocol.round_ok cfg hm st hr e0 he0
-      cases hx : execState cfg (dispatch (stateArms cfg.dfa)) e0 st.iter st with
+      cases hx : execState cfg (dispatch (stateArms cfg.dfa cfg.inl)) e0 st.iter st with
       | ret item1 st1 =>
         rw [hx] at h
         simp only [Option.some.injEq, Prod.mk.injEq] at h
@@ -505,7 +505,7 @@ open NextMore
 transitions plus the offending character (if one was read); end-of-input is flagged exactly when
 everything was read. -/
 theorem scanPlain_err_pos (cfg : Config σ τ ε) (ns : Nat → Option Nat)
-    (htargets : targetsOK cfg.dfa = true) (hns : DispatchOK cfg.dfa ns)
+    (htargets : targetsOK cfg.dfa = true) (hns : DispatchOK cfg.dfa cfg.inl ns)
     (s : Nat) (st : LState σ) (hlast : st.last = none) (hdone : st.done = false) (loc : Loc) (st' : LState σ)
     (h : scanPlain cfg ns s st.iter st = .err loc st') :
     st'.iter = st.iter.drop (gotoLen cfg.dfa s st.iter + 1) ∧
